@@ -84,22 +84,38 @@ fn out<X>(res: Result<X, ArrayError>, rc: &Rc) -> String {
     }
 }
 
-struct Entry { tr: &'static str, m: &'static str, res_impl: bool, f: Box<dyn Fn(&Rc, &A) -> String> }
+type F = Box<dyn Fn(&Rc, &A) -> String>;
+/// `f`: the canonical invocation (Result receiver: `Ok(sample)` or `Err(e)`).  `alt`: the same call expression on other
+/// receivers / element types (robustness streams): `p` = plain `Array<T>` receiver; for the traits that are generic in the
+/// element type also `u8r`/`u8p`, `f64r`/`f64p`, `strr`/`strp` (r = `Ok(array)` through the Result impl, p = plain).
+struct Entry { tr: &'static str, m: &'static str, res_impl: bool, generic: bool, f: F, alt: Vec<(&'static str, F)> }
 
+macro_rules! clo_r { ($t:ty, $r:ident, $a:ident, $call:expr) => { Box::new(|rc: &Rc, $a: &A| { let $r: Result<Array<$t>, ArrayError> = rcv::<$t>(rc); let _ = &$a; out($call, rc) }) as F }; }
+macro_rules! clo_p { ($t:ty, $r:ident, $a:ident, $call:expr) => { Box::new(|rc: &Rc, $a: &A| { let $r: Array<$t> = match rcv::<$t>(rc) { Ok(x) => x, Err(_) => return "harness: a plain receiver cannot be an error".to_string() }; let _ = &$a; out($call, rc) }) as F }; }
 /// method of `impl Trait for Result<Array<T>, ArrayError>`; `$r` is the receiver (`Ok(sample)` or `Err(e)`)
 macro_rules! reg {
     ($v:ident, $tr:literal, $m:literal, $t:ty, |$r:ident, $a:ident| $call:expr) => {
-        $v.push(Entry { tr: $tr, m: $m, res_impl: true, f: Box::new(|rc: &Rc, $a: &A| { let $r: Result<Array<$t>, ArrayError> = rcv::<$t>(rc); let _ = &$a; out($call, rc) }) });
+        $v.push(Entry { tr: $tr, m: $m, res_impl: true, generic: false, f: clo_r!($t, $r, $a, $call), alt: vec![("p", clo_p!($t, $r, $a, $call))] });
+    };
+}
+/// the same for a trait implemented for every `T: ArrayElement`: canonical element type i64, alternates u8 / f64 / String
+macro_rules! regx {
+    ($v:ident, $tr:literal, $m:literal, |$r:ident, $a:ident| $call:expr) => {
+        $v.push(Entry { tr: $tr, m: $m, res_impl: true, generic: true, f: clo_r!(i64, $r, $a, $call), alt: vec![("p", clo_p!(i64, $r, $a, $call)),
+            ("u8r", clo_r!(u8, $r, $a, $call)), ("u8p", clo_p!(u8, $r, $a, $call)), ("f64r", clo_r!(f64, $r, $a, $call)), ("f64p", clo_p!(f64, $r, $a, $call)),
+            ("strr", clo_r!(String, $r, $a, $call)), ("strp", clo_p!(String, $r, $a, $call))] });
     };
 }
 /// method without a Result-receiver impl (static constructors, iteration, joining, option parsers); `$s` = receiver shape
 macro_rules! rgs {
     ($v:ident, $tr:literal, $m:literal, |$s:ident, $a:ident| $call:expr) => {
-        $v.push(Entry { tr: $tr, m: $m, res_impl: false, f: Box::new(|rc: &Rc, $a: &A| { let $s: Vec<usize> = rshape(rc); let _ = (&$a, &$s); out($call, rc) }) });
+        $v.push(Entry { tr: $tr, m: $m, res_impl: false, generic: false, f: Box::new(|rc: &Rc, $a: &A| { let $s: Vec<usize> = rshape(rc); let _ = (&$a, &$s); out($call, rc) }), alt: vec![] });
     };
 }
 
 type RI = Result<Array<i64>, ArrayError>;
+fn sort_kind_of(k: &str) -> SortKind { match k.to_ascii_lowercase().as_str() { "mergesort" => SortKind::Mergesort, "heapsort" => SortKind::Heapsort, "stable" => SortKind::Stable, _ => SortKind::Quicksort } }
+
 
 fn entries() -> Vec<Entry> {
     let mut v: Vec<Entry> = Vec::with_capacity(300);
@@ -110,7 +126,7 @@ fn entries() -> Vec<Entry> {
     reg!(v, "ArrayStringCompare", "less_equal", String, |r, a| r.less_equal(&a.oth(0)));
     reg!(v, "ArrayStringCompare", "greater", String, |r, a| r.greater(&a.oth(0)));
     reg!(v, "ArrayStringCompare", "less", String, |r, a| r.less(&a.oth(0)));
-    reg!(v, "ArrayStringCompare", "compare", String, |r, a| { let o = a.oth(0); let op = a.txt(1).unwrap_or("==".into()); if a.s(2) == Some("string") { r.compare(&o, op) } else { r.compare(&o, op.as_str()) } });
+    reg!(v, "ArrayStringCompare", "compare", String, |r, a| { let o = a.oth(0); let op = a.txt(1).unwrap_or("==".into()); if a.s(2) == Some("string") { r.compare(&o, op) } else if a.s(2) == Some("enum") { r.compare(&o, CompareOp::GreaterEqual) } else { r.compare(&o, op.as_str()) } });
     // ---- ArrayStringIndexing
     reg!(v, "ArrayStringIndexing", "str_len", String, |r, a| r.str_len());
     reg!(v, "ArrayStringIndexing", "count", String, |r, a| ArrayStringIndexing::count(&r, &a.oth(0)));
@@ -152,67 +168,67 @@ fn entries() -> Vec<Entry> {
     reg!(v, "ArrayStringValidate", "is_lower", String, |r, a| r.is_lower());
     reg!(v, "ArrayStringValidate", "is_upper", String, |r, a| r.is_upper());
     // ---- ArrayAxis
-    reg!(v, "ArrayAxis", "apply_along_axis", i64, |r, a| r.apply_along_axis(a.us(0, 0), |l: &Array<i64>| { poke(); Ok(l.clone()) }));
-    reg!(v, "ArrayAxis", "transpose", i64, |r, a| r.transpose(a.ovi(0)));
-    reg!(v, "ArrayAxis", "moveaxis", i64, |r, a| r.moveaxis(a.vi(0, &[0]), a.vi(1, &[0])));
-    reg!(v, "ArrayAxis", "rollaxis", i64, |r, a| r.rollaxis(a.is(0, 0), a.ois(1)));
-    reg!(v, "ArrayAxis", "swapaxes", i64, |r, a| r.swapaxes(a.is(0, 0), a.is(1, 0)));
-    reg!(v, "ArrayAxis", "expand_dims", i64, |r, a| r.expand_dims(a.vi(0, &[0])));
-    reg!(v, "ArrayAxis", "squeeze", i64, |r, a| r.squeeze(a.ovi(0)));
+    regx!(v, "ArrayAxis", "apply_along_axis", |r, a| r.apply_along_axis(a.us(0, 0), |l: &Array<_>| { poke(); Ok(l.clone()) }));
+    regx!(v, "ArrayAxis", "transpose", |r, a| r.transpose(a.ovi(0)));
+    regx!(v, "ArrayAxis", "moveaxis", |r, a| r.moveaxis(a.vi(0, &[0]), a.vi(1, &[0])));
+    regx!(v, "ArrayAxis", "rollaxis", |r, a| r.rollaxis(a.is(0, 0), a.ois(1)));
+    regx!(v, "ArrayAxis", "swapaxes", |r, a| r.swapaxes(a.is(0, 0), a.is(1, 0)));
+    regx!(v, "ArrayAxis", "expand_dims", |r, a| r.expand_dims(a.vi(0, &[0])));
+    regx!(v, "ArrayAxis", "squeeze", |r, a| r.squeeze(a.ovi(0)));
     // ---- ArrayBroadcast
-    reg!(v, "ArrayBroadcast", "broadcast", i64, |r, a| r.broadcast(&a.oth(0)));
-    reg!(v, "ArrayBroadcast", "broadcast_to", i64, |r, a| r.broadcast_to(a.vu(0, &[2, 2, 3])));
+    regx!(v, "ArrayBroadcast", "broadcast", |r, a| r.broadcast(&a.oth(0)));
+    regx!(v, "ArrayBroadcast", "broadcast_to", |r, a| r.broadcast_to(a.vu(0, &[2, 2, 3])));
     rgs!(v, "ArrayBroadcast", "broadcast_arrays", |s, a| <RI as ArrayBroadcast<i64>>::broadcast_arrays(vec![sample(&s), a.oth(0)]));
     // ---- ArrayCount
-    reg!(v, "ArrayCount", "count_nonzero", i64, |r, a| r.count_nonzero(a.ois(0), a.obool(1)));
+    regx!(v, "ArrayCount", "count_nonzero", |r, a| r.count_nonzero(a.ois(0), a.obool(1)));
     // ---- ArrayIndexing
-    reg!(v, "ArrayIndexing", "index_at", i64, |r, a| r.index_at(&a.vu(0, &a.zeros())));
-    reg!(v, "ArrayIndexing", "index_to_coord", i64, |r, a| r.index_to_coord(a.us(0, 0)));
-    reg!(v, "ArrayIndexing", "at", i64, |r, a| r.at(&a.vu(0, &a.zeros())));
-    reg!(v, "ArrayIndexing", "slice", i64, |r, a| r.slice(a.us(0, 0)..a.us(1, 1)));
-    reg!(v, "ArrayIndexing", "indices_at", i64, |r, a| r.indices_at(&a.vu(0, &[0])));
+    regx!(v, "ArrayIndexing", "index_at", |r, a| r.index_at(&a.vu(0, &a.zeros())));
+    regx!(v, "ArrayIndexing", "index_to_coord", |r, a| r.index_to_coord(a.us(0, 0)));
+    regx!(v, "ArrayIndexing", "at", |r, a| r.at(&a.vu(0, &a.zeros())));
+    regx!(v, "ArrayIndexing", "slice", |r, a| r.slice(a.us(0, 0)..a.us(1, 1)));
+    regx!(v, "ArrayIndexing", "indices_at", |r, a| r.indices_at(&a.vu(0, &[0])));
     // ---- ArrayManipulate
-    reg!(v, "ArrayManipulate", "insert", i64, |r, a| r.insert(&a.vu(0, &[0]), &a.oth(1), a.ous(2)));
-    reg!(v, "ArrayManipulate", "delete", i64, |r, a| r.delete(&a.vu(0, &[0]), a.ous(1)));
-    reg!(v, "ArrayManipulate", "append", i64, |r, a| r.append(&a.oth(0), a.ous(1)));
-    reg!(v, "ArrayManipulate", "reshape", i64, |r, a| r.reshape(&a.vu(0, &[a.len])));
-    reg!(v, "ArrayManipulate", "resize", i64, |r, a| r.resize(&a.vu(0, &[2, 2])));
-    reg!(v, "ArrayManipulate", "unique", i64, |r, a| r.unique(a.ois(0)));
-    reg!(v, "ArrayManipulate", "ravel", i64, |r, a| r.ravel());
-    reg!(v, "ArrayManipulate", "atleast", i64, |r, a| r.atleast(a.us(0, 2)));
-    reg!(v, "ArrayManipulate", "trim_zeros", i64, |r, a| r.trim_zeros());
-    reg!(v, "ArrayManipulate", "cycle_take", i64, |r, a| r.cycle_take(a.us(0, 3)));
+    regx!(v, "ArrayManipulate", "insert", |r, a| r.insert(&a.vu(0, &[0]), &a.oth(1), a.ous(2)));
+    regx!(v, "ArrayManipulate", "delete", |r, a| r.delete(&a.vu(0, &[0]), a.ous(1)));
+    regx!(v, "ArrayManipulate", "append", |r, a| r.append(&a.oth(0), a.ous(1)));
+    regx!(v, "ArrayManipulate", "reshape", |r, a| r.reshape(&a.vu(0, &[a.len])));
+    regx!(v, "ArrayManipulate", "resize", |r, a| r.resize(&a.vu(0, &[2, 2])));
+    regx!(v, "ArrayManipulate", "unique", |r, a| r.unique(a.ois(0)));
+    regx!(v, "ArrayManipulate", "ravel", |r, a| r.ravel());
+    regx!(v, "ArrayManipulate", "atleast", |r, a| r.atleast(a.us(0, 2)));
+    regx!(v, "ArrayManipulate", "trim_zeros", |r, a| r.trim_zeros());
+    regx!(v, "ArrayManipulate", "cycle_take", |r, a| r.cycle_take(a.us(0, 3)));
     // ---- ArrayMeta
-    reg!(v, "ArrayMeta", "get_elements", i64, |r, a| r.get_elements());
-    reg!(v, "ArrayMeta", "get_shape", i64, |r, a| r.get_shape());
-    reg!(v, "ArrayMeta", "ndim", i64, |r, a| r.ndim());
-    reg!(v, "ArrayMeta", "len", i64, |r, a| r.len());
-    reg!(v, "ArrayMeta", "is_empty", i64, |r, a| r.is_empty());
+    regx!(v, "ArrayMeta", "get_elements", |r, a| r.get_elements());
+    regx!(v, "ArrayMeta", "get_shape", |r, a| r.get_shape());
+    regx!(v, "ArrayMeta", "ndim", |r, a| r.ndim());
+    regx!(v, "ArrayMeta", "len", |r, a| r.len());
+    regx!(v, "ArrayMeta", "is_empty", |r, a| r.is_empty());
     // ---- ArrayReorder
-    reg!(v, "ArrayReorder", "flip", i64, |r, a| r.flip(a.ovi(0)));
-    reg!(v, "ArrayReorder", "flipud", i64, |r, a| r.flipud());
-    reg!(v, "ArrayReorder", "fliplr", i64, |r, a| r.fliplr());
-    reg!(v, "ArrayReorder", "roll", i64, |r, a| r.roll(a.vi(0, &[1]), a.ovi(1)));
-    reg!(v, "ArrayReorder", "rot90", i64, |r, a| r.rot90(a.us(0, 1), a.vi(1, &[0, 1])));
+    regx!(v, "ArrayReorder", "flip", |r, a| r.flip(a.ovi(0)));
+    regx!(v, "ArrayReorder", "flipud", |r, a| r.flipud());
+    regx!(v, "ArrayReorder", "fliplr", |r, a| r.fliplr());
+    regx!(v, "ArrayReorder", "roll", |r, a| r.roll(a.vi(0, &[1]), a.ovi(1)));
+    regx!(v, "ArrayReorder", "rot90", |r, a| r.rot90(a.us(0, 1), a.vi(1, &[0, 1])));
     // ---- ArraySearch / ArraySort
-    reg!(v, "ArraySearch", "argmax", i64, |r, a| r.argmax(a.ois(0), a.obool(1)));
-    reg!(v, "ArraySearch", "argmin", i64, |r, a| r.argmin(a.ois(0), a.obool(1)));
-    reg!(v, "ArraySort", "sort", i64, |r, a| match a.txt(1) { None => r.sort(a.ois(0), None::<SortKind>), Some(k) => if a.s(2) == Some("string") { r.sort(a.ois(0), Some(k)) } else { r.sort(a.ois(0), Some(k.as_str())) } });
-    reg!(v, "ArraySort", "argsort", i64, |r, a| match a.txt(1) { None => r.argsort(a.ois(0), None::<SortKind>), Some(k) => if a.s(2) == Some("string") { r.argsort(a.ois(0), Some(k)) } else { r.argsort(a.ois(0), Some(k.as_str())) } });
+    regx!(v, "ArraySearch", "argmax", |r, a| r.argmax(a.ois(0), a.obool(1)));
+    regx!(v, "ArraySearch", "argmin", |r, a| r.argmin(a.ois(0), a.obool(1)));
+    regx!(v, "ArraySort", "sort", |r, a| match a.txt(1) { None => r.sort(a.ois(0), None::<SortKind>), Some(k) => if a.s(2) == Some("string") { r.sort(a.ois(0), Some(k)) } else if a.s(2) == Some("enum") { r.sort(a.ois(0), Some(sort_kind_of(&k))) } else { r.sort(a.ois(0), Some(k.as_str())) } });
+    regx!(v, "ArraySort", "argsort", |r, a| match a.txt(1) { None => r.argsort(a.ois(0), None::<SortKind>), Some(k) => if a.s(2) == Some("string") { r.argsort(a.ois(0), Some(k)) } else if a.s(2) == Some("enum") { r.argsort(a.ois(0), Some(sort_kind_of(&k))) } else { r.argsort(a.ois(0), Some(k.as_str())) } });
     // ---- ArraySplit
-    reg!(v, "ArraySplit", "array_split", i64, |r, a| r.array_split(a.us(0, 1), a.ous(1)));
-    reg!(v, "ArraySplit", "split", i64, |r, a| ArraySplit::split(&r, a.us(0, 1), a.ous(1)));
-    reg!(v, "ArraySplit", "split_axis", i64, |r, a| r.split_axis(a.us(0, 0)));
-    reg!(v, "ArraySplit", "hsplit", i64, |r, a| r.hsplit(a.us(0, 1)));
-    reg!(v, "ArraySplit", "vsplit", i64, |r, a| r.vsplit(a.us(0, 1)));
-    reg!(v, "ArraySplit", "dsplit", i64, |r, a| r.dsplit(a.us(0, 1)));
+    regx!(v, "ArraySplit", "array_split", |r, a| r.array_split(a.us(0, 1), a.ous(1)));
+    regx!(v, "ArraySplit", "split", |r, a| ArraySplit::split(&r, a.us(0, 1), a.ous(1)));
+    regx!(v, "ArraySplit", "split_axis", |r, a| r.split_axis(a.us(0, 0)));
+    regx!(v, "ArraySplit", "hsplit", |r, a| r.hsplit(a.us(0, 1)));
+    regx!(v, "ArraySplit", "vsplit", |r, a| r.vsplit(a.us(0, 1)));
+    regx!(v, "ArraySplit", "dsplit", |r, a| r.dsplit(a.us(0, 1)));
     // ---- ArrayTiling
-    reg!(v, "ArrayTiling", "repeat", i64, |r, a| r.repeat(&a.vu(0, &[1]), a.ous(1)));
+    regx!(v, "ArrayTiling", "repeat", |r, a| r.repeat(&a.vu(0, &[1]), a.ous(1)));
     // ---- linalg
     reg!(v, "ArrayLinalgDecompositions", "qr", f64, |r, a| r.qr());
     reg!(v, "ArrayLinalgEigen", "eigvals", f64, |r, a| r.eigvals());
     reg!(v, "ArrayLinalgEigen", "eig", f64, |r, a| r.eig());
-    reg!(v, "ArrayLinalgNorms", "norm", f64, |r, a| match a.txt(0) { None => r.norm(None::<NormOrd>, a.ovi(1), a.obool(2)), Some(o) => if a.s(3) == Some("string") { r.norm(Some(o), a.ovi(1), a.obool(2)) } else { r.norm(Some(o.as_str()), a.ovi(1), a.obool(2)) } });
+    reg!(v, "ArrayLinalgNorms", "norm", f64, |r, a| match a.txt(0) { None => r.norm(None::<NormOrd>, a.ovi(1), a.obool(2)), Some(o) => if a.s(3) == Some("string") { r.norm(Some(o), a.ovi(1), a.obool(2)) } else if a.s(3) == Some("enum") { r.norm(Some(NormOrd::Fro), a.ovi(1), a.obool(2)) } else { r.norm(Some(o.as_str()), a.ovi(1), a.obool(2)) } });
     reg!(v, "ArrayLinalgNorms", "det", f64, |r, a| r.det());
     reg!(v, "ArrayLinalgProducts", "dot", f64, |r, a| r.dot(&a.oth(0)));
     reg!(v, "ArrayLinalgProducts", "vdot", f64, |r, a| r.vdot(&a.oth(0)));
@@ -274,7 +290,7 @@ fn entries() -> Vec<Entry> {
     reg!(v, "ArrayHyperbolic", "acosh", f64, |r, a| r.acosh());
     reg!(v, "ArrayHyperbolic", "atanh", f64, |r, a| r.atanh());
     // ---- ArrayMathMisc
-    reg!(v, "ArrayMathMisc", "convolve", f64, |r, a| match a.txt(1) { None => r.convolve(&a.oth(0), None::<ConvolveMode>), Some(m) => if a.s(2) == Some("string") { r.convolve(&a.oth(0), Some(m)) } else { r.convolve(&a.oth(0), Some(m.as_str())) } });
+    reg!(v, "ArrayMathMisc", "convolve", f64, |r, a| match a.txt(1) { None => r.convolve(&a.oth(0), None::<ConvolveMode>), Some(m) => if a.s(2) == Some("string") { r.convolve(&a.oth(0), Some(m)) } else if a.s(2) == Some("enum") { r.convolve(&a.oth(0), Some(ConvolveMode::Same)) } else { r.convolve(&a.oth(0), Some(m.as_str())) } });
     reg!(v, "ArrayMathMisc", "clip", f64, |r, a| r.clip(a.ooth(0), a.ooth(1)));
     reg!(v, "ArrayMathMisc", "sqrt", f64, |r, a| r.sqrt());
     reg!(v, "ArrayMathMisc", "cbrt", f64, |r, a| r.cbrt());
@@ -331,8 +347,8 @@ fn entries() -> Vec<Entry> {
     reg!(v, "ArrayBinary", "left_shift", i64, |r, a| r.left_shift(&a.oth(0)));
     reg!(v, "ArrayBinary", "right_shift", i64, |r, a| r.right_shift(&a.oth(0)));
     rgs!(v, "ArrayBinary", "binary_repr", |s, a| Ok::<String, ArrayError>(<RI as ArrayBinary<i64>>::binary_repr(a.is(0, 5) as i64)));
-    reg!(v, "ArrayBinaryBits", "unpack_bits", u8, |r, a| match a.txt(2) { None => r.unpack_bits(a.ois(0), a.ois(1), None::<BitOrder>), Some(o) => if a.s(3) == Some("string") { r.unpack_bits(a.ois(0), a.ois(1), Some(o)) } else { r.unpack_bits(a.ois(0), a.ois(1), Some(o.as_str())) } });
-    reg!(v, "ArrayBinaryBits", "pack_bits", u8, |r, a| match a.txt(1) { None => r.pack_bits(a.ois(0), None::<BitOrder>), Some(o) => if a.s(2) == Some("string") { r.pack_bits(a.ois(0), Some(o)) } else { r.pack_bits(a.ois(0), Some(o.as_str())) } });
+    reg!(v, "ArrayBinaryBits", "unpack_bits", u8, |r, a| match a.txt(2) { None => r.unpack_bits(a.ois(0), a.ois(1), None::<BitOrder>), Some(o) => if a.s(3) == Some("string") { r.unpack_bits(a.ois(0), a.ois(1), Some(o)) } else if a.s(3) == Some("enum") { r.unpack_bits(a.ois(0), a.ois(1), Some(BitOrder::Little)) } else { r.unpack_bits(a.ois(0), a.ois(1), Some(o.as_str())) } });
+    reg!(v, "ArrayBinaryBits", "pack_bits", u8, |r, a| match a.txt(1) { None => r.pack_bits(a.ois(0), None::<BitOrder>), Some(o) => if a.s(2) == Some("string") { r.pack_bits(a.ois(0), Some(o)) } else if a.s(2) == Some("enum") { r.pack_bits(a.ois(0), Some(BitOrder::Little)) } else { r.pack_bits(a.ois(0), Some(o.as_str())) } });
     entries_static(&mut v);
     v
 }
@@ -461,14 +477,33 @@ fn clash(s: &[usize]) -> Option<Vec<usize>> {
     let mut c = s[p..].to_vec(); c[0] += 1; Some(c)
 }
 
-struct Gen<'a> { out: &'a mut dyn FnMut(String), seen: BTreeMap<String, BTreeSet<String>> }
+#[derive(Clone, Copy, PartialEq)]
+enum Only { All, ResImpl, Generic }
+/// one captured invalid-argument line (class, trait, method, tokens) of a Result-receiver method
+type Captured = (String, String, String, Vec<String>);
+struct Gen<'a> {
+    out: &'a mut dyn FnMut(String), seen: BTreeMap<String, BTreeSet<String>>,
+    /// class suffix of the robustness streams: `-z` (zero-size receiver), `-p` / `-u8r` / … (receiver / element type variant)
+    suffix: String, only: Only, res_keys: BTreeSet<String>, gen_keys: BTreeSet<String>,
+    /// when set, lines are collected instead of printed (source of the `pa` stream)
+    capture: Option<Vec<Captured>>,
+}
 impl<'a> Gen<'a> {
     fn e(&mut self, cls: &str, tr: &str, m: &str, s: &[usize], toks: &[String]) {
-        self.seen.entry(format!("{tr}.{m}")).or_default().insert(cls.to_string());
-        let mut line = format!("{cls}.{tr}.{m} {}", show_list(s));
+        let key = format!("{tr}.{m}");
+        if let Some(c) = &mut self.capture {
+            if matches!(cls, "m" | "b" | "u") && self.res_keys.contains(&key) { c.push((cls.to_string(), tr.to_string(), m.to_string(), toks.to_vec())); }
+            return;
+        }
+        if self.suffix.is_empty() { self.seen.entry(key).or_default().insert(cls.to_string()); }
+        else {
+            match self.only { Only::ResImpl if !self.res_keys.contains(&key) => return, Only::Generic if !self.gen_keys.contains(&key) => return, _ => {} }
+        }
+        let mut line = format!("{cls}{}.{tr}.{m} {}", self.suffix, show_list(s));
         for t in toks { line.push(' '); line.push_str(t); }
         (self.out)(line);
     }
+    fn with(&mut self, suffix: &str, only: Only) { self.suffix = suffix.to_string(); self.only = only; }
 }
 fn l<T: std::fmt::Display>(v: &[T]) -> String { show_list(v) }
 fn st(x: &str) -> String { x.to_string() }
@@ -563,10 +598,11 @@ fn gen_shape(g: &mut Gen, s: &[usize]) {
         g.e("m", "ArrayTiling", "repeat", s, &[l(&vec![1usize; s[ax] + 1]), ax.to_string()]);
     }
     // ---- shapes that do not fit
-    for sh in [vec![n + 1], vec![n, 2], vec![0], vec![n + 1, 1], if n == 1 { vec![2] } else { vec![] }] { g.e("m", "ArrayManipulate", "reshape", s, &[l(&sh)]); }
+    // (on a zero-size receiver the shapes [n,2] = [0,2] and [0] DO fit: not generated there)
+    for sh in [vec![n + 1], vec![n, 2], vec![0], vec![n + 1, 1], if n == 1 { vec![2] } else { vec![] }] { if n == 0 && sh.contains(&0) { continue; } g.e("m", "ArrayManipulate", "reshape", s, &[l(&sh)]); }
     for cnt in [n + 1, n + 2, n.saturating_sub(1) + 2 * (n == 0) as usize] { if cnt != n { g.e("m", "ArrayCreate", "new", s, &[cnt.to_string(), l(s)]); g.e("m", "ArrayCreate", "create", s, &[cnt.to_string(), l(s), st("3")]); } }
     if n != 1 { g.e("m", "ArrayCreate", "new", s, &[st("1"), l(s)]); }
-    g.e("u", "ArrayTiling", "repeat", s, &[l(&vec![1usize; n + 1]), none.clone()]);
+    if n > 0 { g.e("u", "ArrayTiling", "repeat", s, &[l(&vec![1usize; n + 1]), none.clone()]); }
     if let Some(c) = clash(s) {
         let c = l(&c);
         g.e("m", "ArrayBroadcast", "broadcast_to", s, &[c.clone()]);
@@ -591,7 +627,7 @@ fn gen_shape(g: &mut Gen, s: &[usize]) {
     }
     // a target of lower rank / with a zero-length axis never fits
     if r >= 2 && s[0] >= 2 { g.e("m", "ArrayBroadcast", "broadcast_to", s, &[l(&s[1..])]); }
-    g.e("m", "ArrayBroadcast", "broadcast_to", s, &[st("0")]);
+    if n > 0 { g.e("m", "ArrayBroadcast", "broadcast_to", s, &[st("0")]); }
     // linalg: operands that are not aligned / not square
     if r == 2 && s[0] != s[1] {
         for m in ["dot", "matmul"] { g.e("u", "ArrayLinalgProducts", m, s, &[l(s)]); }
@@ -667,9 +703,55 @@ fn gen_static_total(g: &mut Gen) {
     for nd in ["0", "1", "5", "64"] { g.e("t", "ArrayCreate", "create", &[2, 3], &[st("6"), st("2,3"), st(nd)]); }
 }
 
+/// names no parser accepts: blank, whitespace, padded, wrong, non-ASCII look-alikes
+const BAD_NAMES: &[&str] = &["", " ", "  ", "\t", "\n", "\u{a0}", "Quick sort", "STABLE ", " stable", "bigg", "ＢＩＧ", "ſtable", "stablé", "ｆｒｏ", "quicksort\u{0}", "İnf", "NUC ", "=>", "sa me", "\u{feff}full"];
+
+/// option names spelled as enum / &str / owned String: every unknown name is an error value through every operation that takes
+/// the option; a VALID name (in all three spellings) does not rescue an invalid axis / non-fitting operand
+fn gen_options(g: &mut Gen, s: &[usize]) {
+    let none = st("none");
+    let r = s.len();
+    for sp in BAD_NAMES {
+        let h = hex(sp);
+        for fl in ["str", "string"] {
+            for ax in [none.clone(), st("0"), st("-1")] {
+                g.e("u", "ArraySort", "sort", s, &[ax.clone(), h.clone(), st(fl)]);
+                g.e("u", "ArraySort", "argsort", s, &[ax.clone(), h.clone(), st(fl)]);
+                g.e("u", "ArrayBinaryBits", "pack_bits", s, &[ax.clone(), h.clone(), st(fl)]);
+                g.e("u", "ArrayBinaryBits", "unpack_bits", s, &[ax.clone(), none.clone(), h.clone(), st(fl)]);
+            }
+            g.e("u", "ArrayStringCompare", "compare", s, &[l(s), h.clone(), st(fl)]);
+            g.e("u", "ArrayStringCompare", "compare", s, &[st("1"), h.clone(), st(fl)]);
+            g.e("u", "ArrayLinalgNorms", "norm", s, &[h.clone(), none.clone(), none.clone(), st(fl)]);
+            g.e("u", "ArrayLinalgNorms", "norm", s, &[h.clone(), st("0"), st("true"), st(fl)]);
+            g.e("u", "ArrayMathMisc", "convolve", s, &[st("2"), h.clone(), st(fl)]);
+        }
+    }
+    for b in bad_i(r) {
+        for fl in ["enum", "str", "string"] {
+            for (k, name) in ["quicksort", "MergeSort", "HEAPSORT", "stable"].iter().enumerate() {
+                if fl == "enum" || k % 2 == 0 || s.len() == 1 {
+                    g.e("m", "ArraySort", "sort", s, &[b.clone(), hex(name), st(fl)]);
+                    g.e("m", "ArraySort", "argsort", s, &[b.clone(), hex(name), st(fl)]);
+                }
+            }
+            g.e("m", "ArrayBinaryBits", "pack_bits", s, &[b.clone(), hex("little"), st(fl)]);
+            g.e("m", "ArrayBinaryBits", "unpack_bits", s, &[b.clone(), none.clone(), hex("BIG"), st(fl)]);
+            g.e("u", "ArrayLinalgNorms", "norm", s, &[hex("fro"), b.clone(), none.clone(), st(fl)]);
+            g.e("u", "ArrayLinalgNorms", "norm", s, &[hex("-inf"), format!("0,{b}"), st("true"), st(fl)]);
+        }
+    }
+    if let Some(c) = clash(s) {
+        for fl in ["enum", "str", "string"] { g.e("b", "ArrayStringCompare", "compare", s, &[l(&c), hex(">="), st(fl)]); }
+    }
+}
+
 fn gen(tier: &str, _seed: u64, out: &mut dyn FnMut(String)) {
     let ents = entries();
-    let mut g = Gen { out, seen: BTreeMap::new() };
+    let thorough = tier == "thorough";
+    let res_keys: BTreeSet<String> = ents.iter().filter(|e| e.res_impl).map(|e| format!("{}.{}", e.tr, e.m)).collect();
+    let gen_keys: BTreeSet<String> = ents.iter().filter(|e| e.generic).map(|e| format!("{}.{}", e.tr, e.m)).collect();
+    let mut g = Gen { out, seen: BTreeMap::new(), suffix: String::new(), only: Only::All, res_keys, gen_keys, capture: None };
     // 1. propagation: every Result-receiver method x every error value
     let nerr = error_values().len();
     for e in &ents { if e.res_impl { for i in 0..nerr { g.e("p", e.tr, e.m, &[2, 3], &[format!("e{i}")]); } } }
@@ -677,19 +759,66 @@ fn gen(tier: &str, _seed: u64, out: &mut dyn FnMut(String)) {
     let smoke: Vec<Vec<usize>> = vec![vec![3], vec![2, 2], vec![2, 3], vec![2, 3, 2], vec![2, 2, 3, 2], vec![1], vec![1, 1], vec![1, 1, 1, 1], vec![0], vec![2, 0], vec![0, 2], vec![3, 3], vec![2, 2, 2]];
     for e in &ents { for s in &smoke { g.e("n", e.tr, e.m, s, &[]); } }
     // 3. invalid arguments per shape
-    let mut sh: Vec<Vec<usize>> = if tier == "thorough" { shapes(1, 4, 1, 3) } else { vec![vec![3], vec![2, 3], vec![2, 3, 2], vec![2, 2, 3, 2], vec![1], vec![1, 3], vec![3, 1], vec![2, 1, 3], vec![1, 2, 1, 2], vec![2], vec![2, 2], vec![1, 1], vec![3, 3], vec![1, 1, 1], vec![1, 1, 1, 1], vec![3, 2, 2]] };
-    if tier == "thorough" { sh.extend(vec![vec![4, 5], vec![5], vec![2, 3, 4], vec![2, 3, 4, 2]]); }
+    let mut sh: Vec<Vec<usize>> = if thorough { shapes(1, 4, 1, 3) } else { vec![vec![3], vec![2, 3], vec![2, 3, 2], vec![2, 2, 3, 2], vec![1], vec![1, 3], vec![3, 1], vec![2, 1, 3], vec![1, 2, 1, 2], vec![2], vec![2, 2], vec![1, 1], vec![3, 3], vec![1, 1, 1], vec![1, 1, 1, 1], vec![3, 2, 2]] };
+    if thorough { sh.extend(vec![vec![4, 5], vec![5], vec![2, 3, 4], vec![2, 3, 4, 2]]); }
     for s in &sh { gen_shape(&mut g, s); }
     // 4. totality under extreme (not invalid) argument values, including empty receivers
     let mut tsh: Vec<Vec<usize>> = vec![vec![3], vec![2, 3], vec![2, 3, 2], vec![1], vec![0], vec![2, 0], vec![0, 2], vec![2, 2, 3, 2]];
-    if tier == "thorough" { tsh.extend(shapes(1, 3, 0, 2)); }
+    if thorough { tsh.extend(shapes(1, 3, 0, 2)); }
     for s in &tsh { gen_total(&mut g, s); }
     gen_static_total(&mut g);
+
+    // 7. ROBUSTNESS STREAMS (FRAMEWORK.md).  Class suffixes: `-z` zero-size receiver (an argument the model accepts there is not
+    //    invalid: open), `-p` plain `Array<T>` receiver, `-u8r` … element type + receiver.
+    // 7a. sizes: every invalid-argument class on big receivers (element counts > 512 / 1024 / 4096, axis lengths 16..70, rank 4)
+    let mut big: Vec<Vec<usize>> = vec![vec![600], vec![1030], vec![4100], vec![2, 600], vec![600, 2], vec![65, 3], vec![3, 65], vec![2, 70, 2], vec![17, 16], vec![70, 70], vec![5, 5, 5, 5]];
+    if thorough { big.extend(vec![vec![513], vec![1025], vec![4097], vec![3, 700], vec![40, 30], vec![4, 4, 4, 4], vec![2, 3, 4, 5], vec![9, 9], vec![7, 1, 9], vec![1, 16, 1, 17]]); }
+    for s in &big { gen_shape(&mut g, s); }
+    for s in [vec![600usize], vec![2, 600], vec![17, 16]] { gen_total(&mut g, &s); for e in &ents { g.e("n", e.tr, e.m, &s, &[]); } }
+    // 7b. zero-length axes
+    g.with("-z", Only::All);
+    for s in zero_shapes() { gen_shape(&mut g, &s); gen_options(&mut g, &s); }
+    // 7c. both receivers and the element types: the same invalid arguments through the plain receiver (every Result-receiver
+    //     method) and, for the 46 methods that are generic in the element type, on u8 / f64 / String arrays through both receivers
+    let var_shapes: Vec<Vec<usize>> = if thorough { vec![vec![3], vec![2, 3], vec![2, 3, 2], vec![1, 3], vec![2, 2, 3, 2], vec![600], vec![2, 600], vec![1030], vec![17, 16], vec![3, 3], vec![1]] } else { vec![vec![3], vec![2, 3], vec![2, 3, 2], vec![1, 3], vec![600], vec![2, 600]] };
+    let variants = [("-p", Only::ResImpl), ("-u8r", Only::Generic), ("-u8p", Only::Generic), ("-f64r", Only::Generic), ("-f64p", Only::Generic), ("-strr", Only::Generic), ("-strp", Only::Generic)];
+    for (suf, only) in variants {
+        g.with(suf, only);
+        for s in &var_shapes { gen_shape(&mut g, s); }
+        for s in [vec![3usize], vec![2, 3], vec![2, 0], vec![600]] { gen_total(&mut g, &s); }
+        for e in &ents { for s in &smoke { g.e("n", e.tr, e.m, s, &[]); } }
+        g.with(&format!("-z{suf}"), only);
+        for s in [vec![0usize], vec![2, 0], vec![0, 2], vec![0, 0]] { gen_shape(&mut g, &s); }
+        // propagation through the Result impl instantiated at the other element types
+        if suf.ends_with('r') { g.with(suf, only); for e in &ents { if e.generic { for i in 0..nerr { g.e("p", e.tr, e.m, &[2, 3], &[format!("e{i}")]); } } } }
+    }
+    // 7d. option names as enum / &str / String on small, big and (above) zero-size receivers, both receivers
+    for suf in ["", "-p"] {
+        g.with(suf, if suf.is_empty() { Only::All } else { Only::ResImpl });
+        for s in [vec![3usize], vec![2, 3], vec![2, 3, 2], vec![600], vec![2, 600]] { gen_options(&mut g, &s); }
+    }
+    g.with("", Only::All);
+    // 7e. the earlier error must win: every invalid-argument line of a Result-receiver method (shape [2,3]: axis outside the rank,
+    //     index out of bounds, non-fitting operand, zero parts, unknown option name …) invoked on Err(e) must return that Err(e)
+    g.capture = Some(vec![]);
+    gen_shape(&mut g, &[2, 3]); gen_options(&mut g, &[2, 3]);
+    let captured = g.capture.take().unwrap_or_default();
+    for (i, (_, tr, m, toks)) in captured.iter().enumerate() {
+        let key = format!("{tr}.{m}");
+        let errs = if thorough { vec![i % nerr, (i * 7 + 3) % nerr, (i * 5 + 11) % nerr, (i + 15) % nerr] } else { vec![i % nerr, (i * 7 + 3) % nerr] };
+        for (j, ei) in errs.iter().enumerate() {
+            let suf = if g.gen_keys.contains(&key) { ["", "-u8r", "-strr", "-f64r"][(i + j) % 4] } else { "" };
+            let mut line = format!("pa{suf}.{tr}.{m} 2,3 e{ei}");
+            for t in toks { line.push(' '); line.push_str(t); }
+            (g.out)(line);
+        }
+    }
+
     // 5. option spellings through the five public parsers (&str and String impls)
     let seen = std::mem::take(&mut g.seen);
     let out = g.out;
     for (p, tr, m) in [("sortKind", "SortKindType", "parse_type"), ("compareOp", "CompareOpType", "parse_type"), ("bitOrder", "BitOrderType", "to_bit_order"), ("normOrd", "NormOrdType", "to_ord"), ("convolveMode", "ConvolveModeType", "to_mode")] {
-        for sp in SPELLINGS { for fl in ["str", "string"] { out(format!("opt.{p}.{tr}.{m} {} {fl}", hex(sp))); } }
+        for sp in SPELLINGS.iter().chain(BAD_NAMES.iter()) { for fl in ["str", "string"] { out(format!("opt.{p}.{tr}.{m} {} {fl}", hex(sp))); } }
     }
     // 6. coverage accounting against the regenerated inventory
     let res: Vec<String> = ents.iter().filter(|e| e.res_impl || (e.tr, e.m) == ("ArrayBroadcast", "broadcast_arrays") || (e.tr, e.m) == ("ArrayBinary", "binary_repr")).map(|e| format!("{}.{}", e.tr, e.m)).collect();
@@ -705,12 +834,13 @@ fn gen(tier: &str, _seed: u64, out: &mut dyn FnMut(String)) {
 
 thread_local! { static ENTS: std::collections::HashMap<String, Entry> = entries().into_iter().map(|e| (format!("{}.{}", e.tr, e.m), e)).collect(); }
 
-fn run_entry(key: &str, rc: &Rc, toks: &[&str]) -> Option<String> {
+fn run_entry(key: &str, alt: &str, rc: &Rc, toks: &[&str]) -> Option<String> {
     ENTS.with(|m| {
         let e = m.get(key)?;
+        let f: &F = if alt.is_empty() { &e.f } else { &e.alt.iter().find(|(n, _)| *n == alt)?.1 };
         let sh = rshape(rc);
         let a = A { t: toks, rank: sh.len(), len: sh.iter().product() };
-        Some(guarded(|| (e.f)(rc, &a)))
+        Some(guarded(|| f(rc, &a)))
     })
 }
 
@@ -732,7 +862,12 @@ fn parse_opt(p: &str, text: String, string_impl: bool) -> Option<String> {
 }
 
 fn exec(op: &str, args: &[&str], expected: &str) -> Option<Verdict> {
-    let (cls, rest) = op.split_once('.')?;
+    let (cls_full, rest) = op.split_once('.')?;
+    // class suffixes of the robustness streams: `-z` zero-size receiver, anything else names the receiver / element-type variant
+    let mut parts = cls_full.split('-');
+    let cls = parts.next()?;
+    let (mut zero, mut alt) = (false, "");
+    for f in parts { if f == "z" { zero = true; } else { alt = f; } }
     match cls {
         "inv" => {
             let ents = entries();
@@ -752,22 +887,30 @@ fn exec(op: &str, args: &[&str], expected: &str) -> Option<Verdict> {
             let observed = parse_opt(p, unhex(args.first()?), *args.get(1)? == "string")?;
             Some(compare_default(observed, expected))
         }
-        "p" => {
+        "p" | "pa" => {
             let i: usize = args.get(1)?.strip_prefix('e')?.parse().ok()?;
             let errs = error_values();
             let e = errs.get(i)?;
             CALLS.with(|c| c.set(0));
-            let mut observed = run_entry(rest, &Rc::Err(e), &[])?;
+            let toks: &[&str] = if cls == "pa" { &args[2..] } else { &[] };
+            let mut observed = run_entry(rest, alt, &Rc::Err(e), toks)?;
             if CALLS.with(|c| c.get()) > 0 { observed = format!("closure-called ({observed})"); }
             if observed == expected { Some(Verdict::Match(observed)) }
-            else { Some(Verdict::Mismatch { detail: format!("invoked on Err({e:?}); the model (liftR) says `{expected}`"), observed }) }
+            else { Some(Verdict::Mismatch { detail: format!("invoked on Err({e:?}){}; the earlier error must come back unchanged — the model (liftR) says `{expected}`", if cls == "pa" { " with invalid arguments" } else { "" }), observed }) }
         }
         "m" | "b" | "u" | "o" | "n" | "t" => {
             let sh = parse_usize_list(args.first()?);
-            let observed = run_entry(rest, &Rc::Shape(sh), &args[1..])?;
+            let observed = run_entry(rest, alt, &Rc::Shape(sh.clone()), &args[1..])?;
             let oc = class_of(&observed);
             match cls {
                 "m" | "b" | "u" => {
+                    // the same call a second time must give the same outcome
+                    let again = run_entry(rest, alt, &Rc::Shape(sh), &args[1..])?;
+                    if again != observed { return Some(Verdict::Mismatch { detail: format!("the same call a second time gives `{again}`"), observed }); }
+                    if zero && cls != "u" && class_of(expected) != "err" {
+                        // zero-size receiver and the model does not refuse the argument (or has no answer): not an invalid argument here
+                        return if oc == "panic" || oc == "hang" { Some(Verdict::Mismatch { detail: format!("zero-size receiver (model: `{expected}`): a fallible operation must not panic"), observed }) } else { Some(Verdict::Open(observed)) };
+                    }
                     if class_of(expected) != "err" { return Some(Verdict::Mismatch { detail: format!("the MODEL does not refuse this argument: `{expected}`"), observed }); }
                     if oc == "err" { Some(Verdict::Match(observed)) }
                     else { Some(Verdict::Mismatch { detail: "invalid argument: the outcome must be an error value (model: err)".into(), observed }) }
@@ -781,7 +924,7 @@ fn exec(op: &str, args: &[&str], expected: &str) -> Option<Verdict> {
 }
 
 /// non-trivial: an invalid argument, an unknown/known option spelling, or an error receiver (not the smoke / extreme-value / open / accounting lines)
-fn nontrivial(op: &str, _args: &[&str]) -> bool { matches!(op.split_once('.').map(|x| x.0), Some("m" | "b" | "u" | "p" | "opt")) }
+fn nontrivial(op: &str, _args: &[&str]) -> bool { matches!(op.split_once('.').map(|x| x.0.split('-').next().unwrap_or("")), Some("m" | "b" | "u" | "p" | "pa" | "opt")) }
 
 fn main() {
     harness_main(Spec { prop: "C09", gen, exec, nontrivial, hang_secs: 20,
